@@ -185,7 +185,7 @@ def check_dual(ctx, case, g, m, sig0, with_data=True):
         if interior and local:
             # mechanism feature: does some face at this node have its centre outside the wedge it occupies at the node (possible only
             # for a non-convex face)?  The library orders by the direction of the centres.
-            outside = False
+            outside = reflex = False
             for f in ring:
                 ff = m.faces[f]
                 j = ff.index(n)
@@ -194,7 +194,9 @@ def check_dual(ctx, case, g, m, sig0, with_data=True):
                 a0_, a1_, ac_ = ang(nxt), ang(prv), ang(cent[f])
                 if not (np.mod(ac_ - a0_, 2 * math.pi) < np.mod(a1_ - a0_, 2 * math.pi)):
                     outside = True
-            sig = dict(sig, centre_outside_wedge=outside)
+                if np.mod(a1_ - a0_, 2 * math.pi) >= math.pi - 1e-6:
+                    reflex = True  # the face's corner at this node is not convex (180 degrees or more)
+            sig = dict(sig, centre_outside_wedge=outside, reflex_corner_at_node=reflex)
             adj = True
             for j in range(len(ring)):
                 a, b = ring[j], ring[(j + 1) % len(ring)]
